@@ -737,7 +737,44 @@ impl<'a> Gen<'a> {
             35 if self.f.foldable => {
                 // adversarial shapes: a known-true guard in front of a multi-value call, a user
                 // variable named `_`, an unused local initialised by a field read, duplicate names
-                match self.rng.below(5) {
+                match self.rng.below(9) {
+                    5 => {
+                        // all-unused multiple declaration whose values interleave effectful reads and calls: every
+                        // effect must stay, in source order
+                        self.line("local px = setmetatable({}, { __index = function(_, key) ext_p(\"px\", key) return 1 end })");
+                        match self.rng.below(3) {
+                            0 => self.line("local ua, ub, uc = px.first, ext_n(1), px.second"),
+                            1 => self.line("local ua, ub, uc, ud = ext_n(1), px.a, ext_n(2), px[ext_n(3)]"),
+                            _ => self.line("local ua, ub = px.first, (ext_n(1)), px.third"),
+                        }
+                    }
+                    6 => {
+                        // statically false loop conditions that still perform a call when evaluated
+                        match self.rng.below(4) {
+                            0 => self.line("while { ext_n(1) } == nil do ext_p(\"never\") end"),
+                            1 => self.line("while not { ext_n(2) } do ext_p(\"never\") end"),
+                            2 => self.line("while { ext_n(3) } and false do ext_p(\"never\") end"),
+                            _ => self.line("while (ext_n(4) and nil) do ext_p(\"never\") end"),
+                        }
+                    }
+                    7 => {
+                        // more variables than values with a nil and a trailing multi-value expression
+                        self.line("local function pair() return ext_n(1), ext_n(2) end");
+                        match self.rng.below(3) {
+                            0 => self.line("local e1, e2, e3 = nil, pair()"),
+                            1 => self.line("local e1, e2, e3 = nil, (pair())"),
+                            _ => self.line("local e1, e2, e3 = pair(), nil, pair()"),
+                        }
+                        self.line("ext_p(e1, e2, e3)");
+                    }
+                    8 => {
+                        // near-equal constants: comparisons must not be folded with a tolerance
+                        match if self.f.luau { self.rng.below(3) } else { 0 } {
+                            0 => self.line("ext_p(0.1 + 0.2 == 0.3, 1e-17 == 0, 1 + 1e-16 == 1)"),
+                            1 => self.line("ext_p(if ext_b(1) then 0.1 + 0.2 == 0.3 else \"fallback\")"),
+                            _ => self.line("ext_p(if ext_b(0) then {} elseif ext_b(1) then 1e-17 == 0 else \"fallback\")"),
+                        }
+                    }
                     0 => self.line("ext_p(true and select(1, 7, 8))"),
                     1 => self.line("ext_p((1 < 2) and select(2, \"a\", \"b\", \"c\"), \"end\")"),
                     2 => {
